@@ -16,8 +16,11 @@ Has(e, f) == f \in DOMAIN e
 Cl(name, ok) == IF ok THEN {} ELSE {name}
 \* C19 lock-step: once an object has been cleared, the harness feeds every later call also to a freshly
 \* constructed object of the same configuration and records whether all answers were identical
+\* cfg_same: the configuration getters (m/k, w/d, b/m, width/epsilon, k, bits, ...) answer as they did right after construction
 LockStepClause(e) == Cl("C19.clearedBehavesLikeFresh: same answers as a freshly constructed object after the same calls",
-                        Has(e, "shadow_same") => e.shadow_same)
+                        Has(e, "shadow_same") => e.shadow_same) \cup
+                     Cl("C19.configurationGettersNeverChange (a cleared object keeps its configuration)",
+                        Has(e, "cfg_same") => e.cfg_same)
 Report(e, failing) == \A c \in failing : PrintT(<<"REJECT", e.tid, c>>)
 PInit == l = 1 /\ h = 1
 \* one record per step; header records (one per scenario) switch the configuration
